@@ -152,3 +152,28 @@ PROPS["C12"] = dict(
     bounds={"quick": "depth-1 states; mutation ops on root states and every 12th depth-1 state", "thorough": "mutation ops on every depth-1 state, richer argument domains"},
     assumptions=COMMON_ASSUMPTIONS,
 )
+
+
+def _c05(tier):
+    st = []
+    for ex in ("0", "1"):
+        for im in ("0", "1"):
+            st.append(simple("x%si%s" % (ex, im), "c05_xml", parts=16 if tier == "quick" else 32, deadline={"quick": 120, "thorough": 2400},
+                             env={"HWLOC_LIBXML_EXPORT": ex, "HWLOC_LIBXML_IMPORT": im}))
+    return st
+
+
+PROPS["C05"] = dict(
+    level_text="Exhaustive within bounds: every state of the enumerated set (fixtures, corpus, roots x configurations and all their "
+               "depth-1 successors under the modifying alphabet, each annotated with userdata and escaping-sensitive strings) is "
+               "exported and re-imported under every {export backend} x {import backend} x {buffer,file} x {v3,v2} combination; "
+               "equivalence is decided on canonical dumps, the fixpoint on bytes, userdata on the multiset of callback records.",
+    technique="explicit-state enumeration of reachable topologies x configuration matrix on the real XML code; canonical-dump equivalence oracle",
+    design_ref="DESIGN.md 5 (C05)",
+    stages=_c05,
+    explanation="Four processes per partition set (nolibxml/libxml export x import, chosen through HWLOC_LIBXML_EXPORT/IMPORT because the choice is cached per process).",
+    bounds={"quick": "fixtures + every third corpus file x 2 configurations; U_small x 4 configurations with lean depth-1 alphabets",
+            "thorough": "whole corpus; full depth-1 alphabets"},
+    assumptions=COMMON_ASSUMPTIONS + ["names/infos use printable characters only (non-printable ones are documented to be dropped)",
+                                      "states already ill-formed because of a known C02 finding are skipped"],
+)
